@@ -354,7 +354,12 @@ def _run_jobs(prop, prop_name, tier, seed, t0):
               'stats': collections.defaultdict(float), 'maxstats': {}, 'samples': [], 'violations': {},
               'jobs': collections.OrderedDict()}
     replay_results = []
-    for rp in getattr(prop, 'REPLAYS', []):
+    import glob
+    regress = getattr(prop, 'REPLAYS', None)
+    if regress is None:
+        regress = sorted(os.path.relpath(f, VERIF_DIR)
+                         for f in glob.glob(os.path.join(VERIF_DIR, 'replays', 'regress', prop.ID, '*.json')))
+    for rp in regress:
         rpath = os.path.join(VERIF_DIR, rp)
         doc = json.load(open(rpath, encoding='utf-8'))
         case = from_json(json.dumps(doc['case']))
